@@ -1,461 +1,9 @@
-import Fix8Model.Session.StepLemmas
+import Fix8Model.Props.C16Base
+import Fix8Model.Props.C16X
 /-!
 C16 – Outbound sequence numbers are consecutive and persisted.
 
-NEW messages = frames that are neither a retransmission (PossDupFlag) nor a SequenceReset/gap fill (`newSeqs`).
-Statements are about `Sess.step` / `Sess.run` (Fix8Model/Session/Step.lean) for EVERY history of events
-(application sends, batches, administrative sends, inbound traffic of every kind, restarts over the same store).
-
-Numbering (`C16_step`, `C16_consecutive`, `C16_no_repeats`): with a persister, the new messages of the whole run carry
-`first, first+1, …` across sends, batches, replies and restarts (the restart recovers the persisted number); the only
-place where numbers are skipped is the answer to a ResendRequest (`Renumbers`), where numbering continues from the last
-NewSeqNo announced (that clause belongs to C18) – there the list is still strictly increasing (no repeats).
-Excluded (`Flagged`): sends with the public `custom_seqnum` / `no_increment` arguments – they renumber on request
-(`C16_finding_no_increment_repeat`).
-
-Control record (`C16_control_step`, `C16_control_history`): after every step the persisted record equals
-(next send, next receive), except (known finding, `CtrlExcluded`)
- * `control-ahead-after-no-increment` (DESIGN section 8 row 25): after a send that does not increment (no_increment, custom
-   number, and the Logout of the forced-logoff exit) the record is one ahead in its send number.
-The reject exit of `process` is covered (`C16_regression_control_after_reject`): it used to increment the expected
-number without `update_persist_seqnums()`; repaired in /repo (class `control-behind-after-reject`, now `fixed`).
+`C16Base.lean`: the statements for the events of `Sess.step` (sends, batches, administrative and inbound traffic, restarts).
+`C16X.lean`: the same statements for the extended event set of `Sess.stepX` (application retransmissions alone and inside
+batches, failing socket writes).  Both live in the namespace `Fix8Model.Props.C16`.
 -/
-namespace Fix8Model.Props.C16
-open Fix8Model.Session Fix8Model.Store
-
-/-- sends with the `custom_seqnum` / `no_increment` arguments of `Session::send` -/
-def Flagged : Ev → Prop
-  | .appSend _ c n => c ≠ 0 ∨ n = true
-  | .admSend c n => c ≠ 0 ∨ n = true
-  | _ => False
-
-/-- a decodable ResendRequest: its answer ends with a gap fill that may announce a higher next number -/
-def Renumbers : Ev → Prop
-  | .inbound _ (.ok m) => m.mtype = .resendRequest
-  | _ => False
-
-/-- events of the numbering theorems: no flagged sends; a restart recovers (no explicit send number) -/
-def PlainEv (ev : Ev) : Prop := ¬ Flagged ev ∧ ∀ ss rs, ev = .start ss rs → ss = 0
-
-/-- invariant of the numbering theorems: a session object over a persister whose control record carries the number
-the next new message will get (for a stopped session: the number a restart recovers) -/
-def Good (s : Sess) : Prop :=
-  s.buf = [] ∧ s.started = true ∧ ∃ st a b, s.store = some st ∧ st.ctrl = some (a, b) ∧ (s.shutdown = false → a = s.ns)
-
-private theorem ctrlS_of {s : Sess} {st : SpecG Rec} {a b : Nat} (h1 : s.store = some st) (h2 : st.ctrl = some (a, b)) : ctrlS s = a := by
-  simp [ctrlS, h1, h2]
-
-private theorem good_of_ctrl {s : Sess} (hb : s.buf = []) (hs : s.started = true) (hsome : s.store.isSome = true)
-    (b : Nat) (hc : ∀ st, s.store = some st → st.ctrl = some (s.ns, b)) : Good s ∧ ctrlS s = s.ns := by
-  cases hst : s.store with
-  | none => rw [hst] at hsome; cases hsome
-  | some st => exact ⟨⟨hb, hs, st, s.ns, b, hst, hc st hst, fun _ => rfl⟩, ctrlS_of hst (hc st hst)⟩
-
-/-- **C16, one step**: from a good state, every plain event yields a good state; its new messages carry
-`c, c+1, …, c+k-1` where `c` is the persisted next-send number, and afterwards that number is `c + k` – larger only
-after answering a ResendRequest. -/
-theorem C16_step (s : Sess) (ev : Ev) (hg : Good s) (hp : PlainEv ev) :
-    Good (s.step ev).1 ∧
-    ∃ k, newSeqs (s.step ev).2 = List.range' (ctrlS s) k ∧ ctrlS s + k ≤ ctrlS (s.step ev).1 ∧
-      (¬ Renumbers ev → ctrlS (s.step ev).1 = ctrlS s + k) := by
-  obtain ⟨hb, hs, st, a, b, hst, hctrl, hact⟩ := hg
-  have hc : ctrlS s = a := ctrlS_of hst hctrl
-  have same : Good s := ⟨hb, hs, st, a, b, hst, hctrl, hact⟩
-  have idle : Good s ∧ ∃ k, newSeqs ([] : List Session.Out) = List.range' (ctrlS s) k ∧ ctrlS s + k ≤ ctrlS s ∧ (¬ Renumbers ev → ctrlS s = ctrlS s + k) :=
-    ⟨same, 0, rfl, by omega, fun _ => rfl⟩
-  -- a plain send from an active state
-  have plain : ∀ q : Snd, q.plain → s.shutdown = false →
-      Good (sendProcess s q).1 ∧ ∃ k, newSeqs (sendProcess s q).2 = List.range' (ctrlS s) k ∧ ctrlS s + k ≤ ctrlS (sendProcess s q).1 ∧
-        (¬ Renumbers ev → ctrlS (sendProcess s q).1 = ctrlS s + k) := by
-    intro q hq hsd
-    obtain ⟨h1, h2, h3, h4, h5, h6⟩ := sendProcess_plain s q hb hq
-    have hk := sendProcess_kept s q
-    have hns : s.ns = a := (hact hsd).symm
-    have hg' := good_of_ctrl (s := (sendProcess s q).1) h5 (hk.1.trans hs) (by rw [hk.2, hst]; rfl) s.nr (by
-      intro st' hst'
-      rw [h6, hst] at hst'; simp at hst'
-      rw [← hst', h4]; rfl)
-    refine ⟨hg'.1, 1, ?_, by rw [hg'.2, h4, hc]; omega, fun _ => by rw [hg'.2, h4, hc, hns]⟩
-    rw [h1, hc, ← hns]; simp [newSeqs, h3, h2, builtFrame_mtype, hq.2.2.2.2.2]
-  cases ev with
-  | clock ms => exact ⟨⟨hb, hs, st, a, b, hst, hctrl, hact⟩, 0, rfl, by simp [Sess.step, ctrlS], fun _ => by simp [Sess.step, ctrlS]⟩
-  | start ss rs =>
-    have hss : ss = 0 := hp.2 ss rs rfl
-    subst hss
-    -- recover_seqnums restores a, the Logon carries it
-    have hb2 : ∀ x : Sess, x.buf = [] → x.store = some st → x.ns = a → x.started = true →
-        Good ({ (sendProcess x { m := mkLogon x }).1 with state := .logonSent }) ∧
-        newSeqs (sendProcess x { m := mkLogon x }).2 = List.range' a 1 ∧
-        ctrlS ({ (sendProcess x { m := mkLogon x }).1 with state := .logonSent }) = a + 1 := by
-      intro x hxb hxs hxn hxst
-      obtain ⟨h1, h2, h3, h4, h5, h6⟩ := sendProcess_plain x _ hxb (plain_logon x)
-      have hk := sendProcess_kept x { m := mkLogon x }
-      have hg' := good_of_ctrl (s := { (sendProcess x { m := mkLogon x }).1 with state := .logonSent }) h5 (hk.1.trans hxst)
-        (by show (sendProcess x { m := mkLogon x }).1.store.isSome = true; rw [hk.2, hxs]; rfl) x.nr (by
-          intro st' hst'
-          have : (sendProcess x { m := mkLogon x }).1.store = some st' := hst'
-          rw [h6, hxs] at this; simp at this
-          rw [← this]; show _ = some ((sendProcess x { m := mkLogon x }).1.ns, x.nr); rw [h4]; rfl)
-      refine ⟨hg'.1, ?_, ?_⟩
-      · have hm : (builtFrame x { m := mkLogon x }).mtype = .logon := by rw [builtFrame_mtype]; rfl
-        rw [h1]; simp [newSeqs, h3, h2, hm, hxn]
-      · rw [hg'.2]; show (sendProcess x { m := mkLogon x }).1.ns = a + 1; rw [h4, hxn]
-    have hstep : ∃ x : Sess, x.buf = [] ∧ x.store = some st ∧ x.ns = a ∧ x.started = true ∧
-        s.step (.start 0 rs) = ({ (sendProcess x { m := mkLogon x }).1 with state := .logonSent }, (sendProcess x { m := mkLogon x }).2) := by
-      refine ⟨{ cfg := s.cfg, code := s.code, started := true, state := .notLoggedIn, ns := a, nr := (if rs ≠ 0 then rs else b), buf := [],
-                store := s.store, shutdown := false, now := s.now }, rfl, hst, rfl, rfl, ?_⟩
-      simp [Sess.step, startSession, hst, hctrl]
-    obtain ⟨x, x1, x2, x3, x4, x5⟩ := hstep
-    obtain ⟨g1, g2, g3⟩ := hb2 x x1 x2 x3 x4
-    rw [x5]
-    exact ⟨g1, 1, by rw [hc]; exact g2, by rw [g3, hc]; omega, fun _ => by rw [g3, hc]⟩
-  | appSend pid c n =>
-    have hf : c = 0 ∧ n = false := by
-      have := hp.1; simp only [Flagged, not_or] at this
-      exact ⟨by simpa using this.1, by simpa using this.2⟩
-    simp only [Sess.step]
-    split
-    · rename_i hact2
-      obtain ⟨hc0, hn⟩ := hf
-      subst hc0; subst hn
-      exact plain { m := mkOrder s pid, custom := 0, noInc := false } (plain_order s pid) hact2.2
-    · exact idle
-  | admSend c n =>
-    have hf : c = 0 ∧ n = false := by
-      have := hp.1; simp only [Flagged, not_or] at this
-      exact ⟨by simpa using this.1, by simpa using this.2⟩
-    simp only [Sess.step]
-    split
-    · rename_i hact2
-      obtain ⟨hc0, hn⟩ := hf
-      subst hc0; subst hn
-      exact plain { m := mkHeartbeat s none, custom := 0, noInc := false } (plain_heartbeat s none) hact2.2
-    · exact idle
-  | batch pids =>
-    simp only [Sess.step]
-    split
-    · rename_i hact2
-      cases pids with
-      | nil => exact idle
-      | cons p ps =>
-        obtain ⟨h1, h2, h3, h4, h5, h6⟩ := sendBatch_spec (p :: ps) s (by simp)
-        have hns : s.ns = a := (hact hact2.2).symm
-        obtain ⟨st', hst', hc'⟩ := h5 st hst
-        have hg' := good_of_ctrl (s := (sendBatch s (p :: ps)).1) h4 (h6.1.trans hs) (by rw [hst']; rfl) s.nr (by
-          intro st2 hst2; rw [hst'] at hst2; cases hst2; rw [hc', h2])
-        refine ⟨hg'.1, (p :: ps).length, ?_, by rw [hg'.2, h2, hc]; omega, fun _ => by rw [hg'.2, h2, hc, hns]⟩
-        rw [h1, hb, hc, hns]; rfl
-    · exact idle
-  | inbound scan dec =>
-    simp only [Sess.step]
-    split
-    · rename_i hact2
-      have hns : s.ns = a := (hact hact2.2).symm
-      obtain ⟨p1, p2, k, p3, p4⟩ := process_spec s scan dec hb
-      have hsome : (process s scan dec).1.store.isSome = true := by rw [p2.2, hst]; rfl
-      have hstarted : (process s scan dec).1.started = true := p2.1.trans hs
-      cases hpath : pathOf s scan dec with
-      | ignored =>
-        rw [hpath] at p4; rw [p4.2]; exact idle
-      | normal =>
-        rw [hpath] at p4
-        obtain ⟨q1, q2, q3⟩ := p4
-        have hg' := good_of_ctrl p1 hstarted hsome _ q3
-        refine ⟨hg'.1, k, by rw [hc, ← hns]; exact p3, by rw [hg'.2, hc, ← hns]; exact q1, fun hr => ?_⟩
-        rw [hg'.2, hc, ← hns]
-        apply q2
-        intro m hm; subst hm; exact hr
-      | reject =>
-        rw [hpath] at p4
-        obtain ⟨q1, q2, q3⟩ := p4
-        have hg' := good_of_ctrl p1 hstarted hsome _ q3
-        exact ⟨hg'.1, k, by rw [hc, ← hns]; exact p3, by rw [hg'.2, hc, ← hns, q1]; omega, fun _ => by rw [hg'.2, hc, ← hns, q1]⟩
-      | logoffQuiet =>
-        rw [hpath] at p4
-        obtain ⟨q0, q1, q2, q3, q4⟩ := p4
-        subst q0
-        have hcs : ctrlS (process s scan dec).1 = a := ctrlS_of (by rw [q4]; exact hst) hctrl
-        refine ⟨⟨p1, hstarted, st, a, b, by rw [q4]; exact hst, hctrl, fun h => by rw [q1] at h; cases h⟩, 0, by rw [hc, ← hns]; exact p3,
-          by rw [hcs, hc]; omega, fun _ => by simp [hcs, hc]⟩
-      | logoffLogout =>
-        rw [hpath] at p4
-        obtain ⟨q0, q1, q2, q3, q4⟩ := p4
-        subst q0
-        have hst' : (process s scan dec).1.store = some (st.cput (s.ns + 1) s.nr) := by rw [q4, hst]; rfl
-        have hcs : ctrlS (process s scan dec).1 = s.ns + 1 := ctrlS_of hst' rfl
-        refine ⟨⟨p1, hstarted, _, s.ns + 1, s.nr, hst', rfl, fun h => by rw [q1] at h; cases h⟩, 1, by rw [hc, ← hns]; exact p3,
-          by rw [hcs, hc, hns]; omega, fun _ => by rw [hcs, hc, hns]⟩
-    · exact idle
-
-/-! ### every history -/
-
-/-- **C16 over histories, numbering**: in the run of EVERY plain history from a good state the new messages carry
-strictly increasing numbers (no two share one), none below the persisted next-send number; when no ResendRequest is
-answered in between they are exactly consecutive: `c, c+1, c+2, …`. -/
-theorem C16_run (h : List Ev) : ∀ (s : Sess), Good s → (∀ ev ∈ h, PlainEv ev) →
-    Good (s.run h).1 ∧
-    (newSeqs (s.run h).2).Pairwise (· < ·) ∧
-    (∀ x ∈ newSeqs (s.run h).2, ctrlS s ≤ x ∧ x < ctrlS (s.run h).1) ∧
-    ctrlS s ≤ ctrlS (s.run h).1 ∧
-    ((∀ ev ∈ h, ¬ Renumbers ev) →
-      newSeqs (s.run h).2 = List.range' (ctrlS s) (ctrlS (s.run h).1 - ctrlS s)) := by
-  induction h with
-  | nil =>
-    intro s hg _
-    simp only [Sess.run, newSeqs]
-    refine ⟨hg, List.Pairwise.nil, ?_, Nat.le_refl _, ?_⟩
-    · intro x hx; cases hx
-    · intro _; simp
-  | cons ev rest ih =>
-    intro s hg hp
-    obtain ⟨g1, k, n1, n2, n3⟩ := C16_step s ev hg (hp ev (List.mem_cons_self))
-    obtain ⟨i1, i2, i3, i4, i5⟩ := ih (s.step ev).1 g1 (fun e he => hp e (List.mem_cons_of_mem _ he))
-    simp only [Sess.run]
-    rw [newSeqs_append, n1]
-    refine ⟨i1, ?_, ?_, by omega, ?_⟩
-    · rw [List.pairwise_append]
-      refine ⟨List.pairwise_lt_range', i2, ?_⟩
-      intro x hx y hy
-      rw [List.mem_range'_1] at hx
-      have := (i3 y hy).1
-      omega
-    · intro x hx
-      rcases List.mem_append.mp hx with hx | hx
-      · rw [List.mem_range'_1] at hx; omega
-      · have := i3 x hx; omega
-    · intro hr
-      have e1 := n3 (hr ev (List.mem_cons_self))
-      rw [i5 (fun e he => hr e (List.mem_cons_of_mem _ he)), e1]
-      obtain ⟨d, hd⟩ := Nat.exists_eq_add_of_le i4
-      rw [hd, e1, show ctrlS s + k + d - (ctrlS s + k) = d by omega, show ctrlS s + k + d - ctrlS s = k + d by omega,
-        List.range'_append_1]
-
-/-- the first start of a session over a fresh persister: the Logon carries the configured start number (or 1) -/
-theorem first_start (cfg : Cfg) (code : Code) (ss rs : Nat) :
-    Good ((Sess.init cfg code true).step (.start ss rs)).1 ∧
-    newSeqs ((Sess.init cfg code true).step (.start ss rs)).2 = [if ss ≠ 0 then ss else 1] ∧
-    ctrlS ((Sess.init cfg code true).step (.start ss rs)).1 = (if ss ≠ 0 then ss else 1) + 1 := by
-  refine ⟨⟨rfl, rfl, ?_⟩, ?_, ?_⟩
-  · by_cases h : ss = 0 <;> by_cases h2 : rs = 0 <;>
-      simp [Sess.step, startSession, Sess.init, sendProcess, mkLogon, Sess.fresh, SpecG.cput, h, h2]
-  · by_cases h : ss = 0 <;> simp [Sess.step, startSession, Sess.init, sendProcess, mkLogon, Sess.fresh, newSeqs, h]
-  · by_cases h : ss = 0 <;> by_cases h2 : rs = 0 <;>
-      simp [Sess.step, startSession, Sess.init, sendProcess, mkLogon, Sess.fresh, SpecG.cput, ctrlS, h, h2]
-
-/-- **C16, consecutive**: a session over a fresh persister is started with a configured (or default 1) send number;
-then ANY history of plain sends, batches, inbound traffic and restarts, without a ResendRequest to answer: the new
-messages of the whole run (all incarnations) carry exactly `first, first+1, first+2, …`. -/
-theorem C16_consecutive (cfg : Cfg) (code : Code) (ss rs : Nat) (rest : List Ev)
-    (hp : ∀ ev ∈ rest, PlainEv ev) (hr : ∀ ev ∈ rest, ¬ Renumbers ev) :
-    newSeqs ((Sess.init cfg code true).run (.start ss rs :: rest)).2 =
-      List.range' (if ss ≠ 0 then ss else 1) (newSeqs ((Sess.init cfg code true).run (.start ss rs :: rest)).2).length := by
-  obtain ⟨g, n, c⟩ := first_start cfg code ss rs
-  obtain ⟨_, _, _, i4, i5⟩ := C16_run rest _ g hp
-  have e := i5 hr
-  simp only [Sess.run]
-  rw [newSeqs_append, n, e, c]
-  simp only [List.length_append, List.length_cons, List.length_nil, List.length_range']
-  rw [show (0 + 1 + (ctrlS (((Sess.init cfg code true).step (.start ss rs)).1.run rest).1 - ((if ss ≠ 0 then ss else 1) + 1)))
-        = 1 + (ctrlS (((Sess.init cfg code true).step (.start ss rs)).1.run rest).1 - ((if ss ≠ 0 then ss else 1) + 1)) by omega,
-      ← List.range'_append_1]
-  rfl
-
-/-- **C16, no repeats**: the same with ResendRequests allowed: strictly increasing, so no two new messages share a number. -/
-theorem C16_no_repeats (cfg : Cfg) (code : Code) (ss rs : Nat) (rest : List Ev) (hp : ∀ ev ∈ rest, PlainEv ev) :
-    (newSeqs ((Sess.init cfg code true).run (.start ss rs :: rest)).2).Pairwise (· < ·) := by
-  obtain ⟨g, n, c⟩ := first_start cfg code ss rs
-  obtain ⟨_, i2, i3, _, _⟩ := C16_run rest _ g hp
-  simp only [Sess.run]
-  rw [newSeqs_append, n, List.pairwise_append]
-  refine ⟨List.pairwise_singleton _ _, i2, ?_⟩
-  intro x hx y hy
-  rw [List.mem_singleton] at hx; subst hx
-  have := (i3 y hy).1
-  omega
-
-/-! ### the control record -/
-
-/-- the known-finding class of the control-record clause -/
-def CtrlExcluded (s : Sess) (ev : Ev) : Prop :=
-  Flagged ev ∨
-  ∃ scan dec, ev = .inbound scan dec ∧ s.started = true ∧ s.shutdown = false ∧ pathOf s scan dec = .logoffLogout
-
-/-- **C16, control record, one step**: in every state with an empty batch buffer whose control record is right, every
-event outside the excluded classes leaves it equal to (next send, next receive). -/
-theorem C16_control_step (s : Sess) (ev : Ev) (hb : s.buf = []) (hc : CtrlOK s) (hx : ¬ CtrlExcluded s ev) :
-    CtrlOK (s.step ev).1 ∧ (s.step ev).1.buf = [] := by
-  have plain : ∀ q : Snd, q.plain → CtrlOK (sendProcess s q).1 ∧ (sendProcess s q).1.buf = [] := by
-    intro q hq
-    obtain ⟨h1, h2, h3, h4, h5, h6⟩ := sendProcess_plain s q hb hq
-    refine ⟨?_, h5⟩
-    intro st hst
-    rw [h6] at hst
-    cases hs : s.store with
-    | none => rw [hs] at hst; cases hst
-    | some st0 => rw [hs] at hst; simp at hst; rw [← hst, h4]; rfl
-  cases ev with
-  | clock ms => exact ⟨hc, hb⟩
-  | start ss rs =>
-    have logon_ctrl : ∀ x : Sess, x.buf = [] →
-        CtrlOK { (sendProcess x { m := mkLogon x }).1 with state := .logonSent } ∧
-        ({ (sendProcess x { m := mkLogon x }).1 with state := .logonSent } : Sess).buf = [] := by
-      intro x hxb
-      obtain ⟨h1, h2, h3, h4, h5, h6⟩ := sendProcess_plain x _ hxb (plain_logon x)
-      refine ⟨?_, h5⟩
-      intro st hst
-      have hst' : (sendProcess x { m := mkLogon x }).1.store = some st := hst
-      rw [h6] at hst'
-      show st.ctrl = some ((sendProcess x { m := mkLogon x }).1.ns, x.nr)
-      cases hs : x.store with
-      | none => rw [hs] at hst'; cases hst'
-      | some st0 => rw [hs] at hst'; simp at hst'; rw [← hst', h4]; rfl
-    simp only [Sess.step, startSession]
-    cases hq : s.store.bind (·.ctrl) with
-    | none => exact logon_ctrl _ rfl
-    | some ab => obtain ⟨a, b⟩ := ab; exact logon_ctrl _ rfl
-  | appSend pid c n =>
-    have hf : c = 0 ∧ n = false := by
-      have : ¬ Flagged (.appSend pid c n) := fun h => hx (Or.inl h)
-      simp only [Flagged, not_or] at this
-      exact ⟨by simpa using this.1, by simpa using this.2⟩
-    simp only [Sess.step]
-    split
-    · obtain ⟨hc0, hn⟩ := hf; subst hc0; subst hn
-      exact plain { m := mkOrder s pid, custom := 0, noInc := false } (plain_order s pid)
-    · exact ⟨hc, hb⟩
-  | admSend c n =>
-    have hf : c = 0 ∧ n = false := by
-      have : ¬ Flagged (.admSend c n) := fun h => hx (Or.inl h)
-      simp only [Flagged, not_or] at this
-      exact ⟨by simpa using this.1, by simpa using this.2⟩
-    simp only [Sess.step]
-    split
-    · obtain ⟨hc0, hn⟩ := hf; subst hc0; subst hn
-      exact plain { m := mkHeartbeat s none, custom := 0, noInc := false } (plain_heartbeat s none)
-    · exact ⟨hc, hb⟩
-  | batch pids =>
-    simp only [Sess.step]
-    split
-    · cases pids with
-      | nil => exact ⟨hc, hb⟩
-      | cons p ps =>
-        obtain ⟨h1, h2, h3, h4, h5, h6⟩ := sendBatch_spec (p :: ps) s (by simp)
-        refine ⟨?_, h4⟩
-        intro st hst
-        cases hs : s.store with
-        | none =>
-          have := h6.2; rw [hs, hst] at this; cases this
-        | some st0 =>
-          obtain ⟨st', hst', hc'⟩ := h5 st0 hs
-          rw [hst'] at hst; cases hst; rw [hc', h2, h3]
-    · exact ⟨hc, hb⟩
-  | inbound scan dec =>
-    simp only [Sess.step]
-    split
-    · rename_i hact
-      obtain ⟨p1, p2, k, p3, p4⟩ := process_spec s scan dec hb
-      refine ⟨?_, p1⟩
-      cases hpath : pathOf s scan dec with
-      | ignored => rw [hpath] at p4; rw [p4.2]; exact hc
-      | normal => rw [hpath] at p4; exact p4.2.2
-      | reject => rw [hpath] at p4; exact p4.2.2
-      | logoffLogout => exact absurd (Or.inr ⟨scan, dec, rfl, hact.1, hact.2, hpath⟩) hx
-      | logoffQuiet =>
-        rw [hpath] at p4
-        obtain ⟨_, _, q2, q3, q4⟩ := p4
-        intro st hst
-        rw [q4] at hst; rw [q2, q3]; exact hc st hst
-    · exact ⟨hc, hb⟩
-
-/-- the excluded classes are avoided along the whole run -/
-def Along (P : Sess → Ev → Prop) : Sess → List Ev → Prop
-  | _, [] => True
-  | s, ev :: rest => P s ev ∧ Along P (s.step ev).1 rest
-
-theorem Along_append {P : Sess → Ev → Prop} (a b : List Ev) : ∀ s, Along P s (a ++ b) → Along P s a := by
-  induction a with
-  | nil => intro s _; trivial
-  | cons x xs ih => intro s h; exact ⟨h.1, ih _ h.2⟩
-
-/-- **C16 over histories, control record**: after EVERY history that stays outside the excluded classes (and, `Along`
-being prefix-closed, after every step of it) the persisted control record equals (next send, next receive). -/
-theorem C16_control_history (h : List Ev) : ∀ (s : Sess), s.buf = [] → CtrlOK s →
-    Along (fun s ev => ¬ CtrlExcluded s ev) s h → CtrlOK (s.run h).1 := by
-  induction h with
-  | nil => intro s _ hc _; exact hc
-  | cons ev rest ih =>
-    intro s hb hc ha
-    obtain ⟨c1, b1⟩ := C16_control_step s ev hb hc ha.1
-    exact ih _ b1 c1 ha.2
-
-/-- ... in particular from the very first start over a fresh persister (the empty world is vacuously right:
-its record is compared only once a session wrote one) -/
-theorem C16_control_from_start (cfg : Cfg) (code : Code) (ss rs : Nat) (rest : List Ev)
-    (ha : Along (fun s ev => ¬ CtrlExcluded s ev) ((Sess.init cfg code true).step (.start ss rs)).1 rest) :
-    CtrlOK ((Sess.init cfg code true).run (.start ss rs :: rest)).1 := by
-  simp only [Sess.run]
-  have h1 : CtrlOK ((Sess.init cfg code true).step (.start ss rs)).1 ∧ ((Sess.init cfg code true).step (.start ss rs)).1.buf = [] := by
-    refine ⟨?_, rfl⟩
-    intro st hst
-    by_cases h : ss = 0 <;> by_cases h2 : rs = 0 <;>
-      simp [Sess.step, startSession, Sess.init, sendProcess, mkLogon, Sess.fresh, SpecG.cput, h, h2] at hst ⊢ <;>
-      (rw [← hst])
-  exact C16_control_history rest _ h1.2 h1.1 ha
-
-/-! ### non-vacuity -/
-
-def cfg0 : Cfg := ⟨true, 1, 2⟩
-def logonReply (seq : Nat) : Msg := { mtype := .logon, seq := seq, snd := 2, tgt := 1 }
-def order (seq : Nat) : Msg := { mtype := .app 68, seq := seq, snd := 2, tgt := 1, pid := some 9, admin := false }
-
-/-- a history with handshake, sends, a batch, inbound traffic incl. an undecodable frame, a restart and more sends:
-numbers 1..9 without a hole -/
-example : newSeqs ((Sess.init cfg0 Code.fixed true).run
-    [.start 0 0, .inbound (some 1) (.ok (logonReply 1)), .appSend 7 0 false, .batch [8, 9, 10], .inbound (some 2) (.ok (order 2)),
-     .inbound (some 3) (.throws false), .admSend 0 false, .start 0 0, .inbound (some 4) (.ok (logonReply 4)), .appSend 11 0 false]).2
-    = [1, 2, 3, 4, 5, 6, 7, 8, 9] := by decide
-
-example : PlainEv (.appSend 7 0 false) := ⟨by simp [Flagged], fun _ _ h => by cases h⟩
-example : PlainEv (.start 0 5) := ⟨by simp [Flagged], fun ss rs h => by cases h; rfl⟩
-example : ¬ Renumbers (.inbound (some 2) (.ok (order 2))) := by simp [Renumbers, order]
-
-/-! ### findings -/
-
-/-- a session in the `continuous` state with a right control record -/
-def s7 : Sess := { cfg := cfg0, started := true, state := .continuous, ns := 7, nr := 5, store := some ⟨[], some (7, 5)⟩ }
-
-/-- KNOWN finding `control-ahead-after-no-increment` (row 25): after `send(msg, 0, no_increment = true)` the session's next
-send number is still 7 but the control record says 8. -/
-theorem C16_finding_control_ahead :
-    CtrlOK s7 ∧ Flagged (.appSend 1 0 true) ∧
-    (s7.step (.appSend 1 0 true)).1.ns = 7 ∧ ((s7.step (.appSend 1 0 true)).1.store.bind (·.ctrl)) = some (8, 5) ∧
-    ¬ CtrlOK (s7.step (.appSend 1 0 true)).1 := by
-  refine ⟨by intro st h; cases h; rfl, Or.inr rfl, by decide, by decide, ?_⟩
-  intro h
-  have := h _ rfl
-  revert this; decide
-
-/-- the same class: the Logout written by the forced-logoff exit (state `logon_received`) does not increment -/
-theorem C16_finding_control_ahead_logout :
-    pathOf { s7 with state := .logonSent } (some 9) (.ok (logonReply 9)) = .logoffLogout ∧
-    (({ s7 with state := .logonSent }.step (.inbound (some 9) (.ok (logonReply 9)))).1.store.bind (·.ctrl)) = some (8, 5) ∧
-    ({ s7 with state := .logonSent }.step (.inbound (some 9) (.ok (logonReply 9)))).1.ns = 7 := by
-  refine ⟨by decide, by decide, by decide⟩
-
-/-- regression of the repaired finding `control-behind-after-reject`: an undecodable frame is answered by a Reject, the
-expected number goes from 5 to 6 and the control record follows (it kept receive number 5 before the repair). -/
-theorem C16_regression_control_after_reject :
-    pathOf s7 (some 5) (.throws false) = .reject ∧ ¬ CtrlExcluded s7 (.inbound (some 5) (.throws false)) ∧
-    (s7.step (.inbound (some 5) (.throws false))).1.nr = 6 ∧ (s7.step (.inbound (some 5) (.throws false))).1.ns = 8 ∧
-    ((s7.step (.inbound (some 5) (.throws false))).1.store.bind (·.ctrl)) = some (8, 6) := by
-  refine ⟨by decide, ?_, by decide, by decide, by decide⟩
-  rintro (h | ⟨scan, dec, he, _, _, hp⟩)
-  · exact h
-  · cases he; revert hp; decide
-
-/-- `Flagged` sends are excluded from the numbering clause because they renumber by request: after a `no_increment`
-send the next plain message carries the same number. -/
-theorem C16_finding_no_increment_repeat :
-    newSeqs (s7.run [.appSend 1 0 true, .appSend 2 0 false]).2 = [7, 7] := by decide
-
-end Fix8Model.Props.C16
